@@ -67,7 +67,7 @@ def rewrite_std(src):
 FILES = {
  "bo.rs": [], "db_ops.rs": [], "security.rs": [], "consensus_ops.rs": [], "parse_request.rs": [],
  "process_request.rs": [], "election_ops.rs": [], "monitoring.rs": [], "configuration.rs": [],
- "disk_ops.rs": [r"^pub fn declutter_scheduler\("], "storage/disk.rs": [], "storage/common.rs": [],
+ "disk_ops.rs": [r"^pub fn declutter_scheduler\("], "storage/disk.rs": [], "storage/common.rs": [], "storage/s3.rs": [], "storage/s3_partition.rs": [],
  "replication_ops.rs": [
     r"^pub fn ask_to_join_all_replicas\(", r"^pub fn ask_to_join\(", r"^fn start_replication\(",
     r"^pub async fn auth_on_replication\(", r"^async fn start_sync_process\(",
@@ -97,16 +97,7 @@ def generate(OUT):
         info["files"].append(f)
     open(OUT + "/src/storage/mod.rs", "w").write("pub mod common;\npub mod disk;\npub mod s3;\npub mod s3_partition;\n")
     open(OUT + "/src/network/mod.rs", "w").write("pub mod http_ops;\n")
-    stub = """use vstd::sync::Arc; use crate::bo::*;
-pub struct %s {}
-impl %s {
-    pub fn load_all_dbs_from_cloud(_dbs: &Arc<Databases>) { unimplemented!() }
-    pub fn storage_data_on_cloud(_db: &Database, _r: bool, _n: &String) -> u32 { unimplemented!() }
-}
-"""
-    open(OUT + "/src/storage/s3.rs", "w").write(stub % ("S3Storage", "S3Storage"))
-    open(OUT + "/src/storage/s3_partition.rs", "w").write(stub % ("S3PartitionStorage", "S3PartitionStorage"))
-    info["dropped_items"] += ["storage/s3.rs (AWS SDK; stub)", "storage/s3_partition.rs (AWS SDK; stub)", "client/*", "command_line/*", "network/tcp_ops.rs", "network/ws_ops.rs"]
+    info["dropped_items"] += ["client/*", "command_line/*", "network/tcp_ops.rs", "network/ws_ops.rs"]
     open(OUT + "/src/lib.rs", "w").write("""#![allow(warnings)]
 pub mod bo; pub mod configuration; pub mod consensus_ops; pub mod db_ops; pub mod disk_ops; pub mod election_ops;
 pub mod monitoring; pub mod network; pub mod parse_request; pub mod process_request; pub mod replication_ops;
